@@ -17,7 +17,7 @@ var rawBodies = []string{`raw1`, `{notjson`, `7`, `{"a":1}`, `x y z`, ``}
 var xattrVals = []string{`{"rev":"1-a"}`, `{"cas":"x","n":{"m":1}}`, `"s"`, `5`, `[1]`, `true`, `{"b":2,"a":1}`, `{}`}
 var badXattrVals = []string{`{bad`, ``}
 var macroPaths = []string{"_sync.cas", "_sync.n.crc", "u1.cas", "_vv.x", "_sync.rev", "u2.n.deep"}
-var subdocPaths = []string{"a", "b.c", "x.y", "a.z", "n", "b", "b.c.d", "q", "new"}
+var subdocPaths = []string{"a", "b.c", "x.y", "a.z", "n", "b", "b.c.d", "q", "new", "n.x", "s.y", "b.c.d.e"}
 var subdocVals = []string{`1`, `"v"`, `{"k":true}`, `null`, ``, `[1]`}
 var farExps = []uint32{4000000000, 4000000001, 4100000000, 3900000000}
 var pastExps = []uint32{1000000000, 1500000000, 1000000001}
